@@ -17,7 +17,7 @@ COMPONENTS = {
 
 # fault kinds: name -> stats key that counts how often it actually *fired*
 FAULTS = collections.OrderedDict([
-    ("message latency (delivery as separate scheduled event)", "deliveries"),
+    ("message latency (delivery as a separately scheduled event)", "deliveries"),
     ("cross-source message reordering", "reordered"),
     ("message arrived before its receive was posted (unexpected queue)", "unexpected"),
     ("rendezvous send", "sends_rdv"),
@@ -45,17 +45,24 @@ def c17_violation(r):
     v = r["verdict"]
     return v.startswith("asan") or v.startswith("crash:signal") or bool(r.get("ubsan")) or v == "ubsan"
 
+# small dispatcher configurations whose interleaving space is sampled densely; the evidence reports how the number of
+# distinct interleavings grows with the number of runs (a flat tail = the space reachable by the simulator is saturated)
+SMALL_C16 = ["P=2 mode=0 G=1 J=1", "P=2 mode=0 G=1 J=2,1", "P=3 mode=0 G=1 J=2", "P=2 mode=3 G=1 J=2 root=0", "P=1 mode=0 G=1 J=2,0,1"]
+SMALL_C16_THOROUGH = ["P=3 mode=0 G=1 J=3,2", "P=4 mode=1 G=2 J=1;2", "P=3 mode=2 G=1 J=3 root=1", "P=4 mode=0 G=1 J=3"]
+
 CHECKS = {
     "C16": {
         "parts": {
-            "quick": [dict(harness="c16_dispatch", variant="plain", runs=600000, tl=90)],
+            "quick": [dict(harness="c16_dispatch", variant="plain", runs=500000, tl=90)] + [
+                      dict(harness="c16_dispatch", variant="plain", runs=30000, tl=30, cfg=c, saturation=True) for c in SMALL_C16],
             "thorough": [dict(harness="c16_dispatch", variant="plain", runs=6000000, tl=1200),
-                         dict(harness="c16_dispatch", variant="san", runs=600000, tl=600)],
+                         dict(harness="c16_dispatch", variant="san", runs=600000, tl=600)] + [
+                         dict(harness="c16_dispatch", variant="plain", runs=1000000, tl=200, cfg=c, saturation=True) for c in SMALL_C16 + SMALL_C16_THOROUGH],
         },
         "is_violation": any_nonok,
         "workload_keys": ["J", "G", "P", "mode", "root", "pool", "tids", "early", "cseed"],
         "rule": "one case = one seeded execution (workload + fault switches + schedule) of the real MPIMaster/MPIWorker/mpi_skel::run on simulated MPI; "
-                "distinct = distinct hash of the full event sequence (every scheduling decision and SimMPI event); non-trivial = at least 2 ranks, so that there is an interleaving at all",
+                "distinct = distinct interleaving signature (hash of the order of all scheduler/SimMPI events except unsuccessful polls and stalls, without step numbers - two runs that differ only in how often somebody polled in vain count once); non-trivial = at least 2 ranks, so that there is an interleaving at all",
     },
     "C06": {
         "parts": {
@@ -67,7 +74,7 @@ CHECKS = {
         "is_violation": any_nonok,
         "workload_keys": ["calls", "hrep", "quads", "freqs", "P", "model", "wf", "nosym", "beta", "mp"],
         "rule": "one case = one seeded execution of the whole ED workflow SPMD on P simulated ranks with T simulated OpenMP threads, compared with the 1-rank/1-thread reference; "
-                "distinct = distinct hash of the full event sequence; non-trivial = at least 2 ranks or at least 2 OpenMP threads",
+                "distinct = distinct interleaving signature (order of all events except unsuccessful polls and stalls); non-trivial = at least 2 ranks or at least 2 OpenMP threads",
     },
     "C13": {
         "parts": {
@@ -78,7 +85,7 @@ CHECKS = {
         "is_violation": any_nonok,
         "workload_keys": ["ops", "P", "model", "beta"],
         "rule": "one case = one seeded request history executed SPMD on P simulated ranks under a seeded schedule, checked after every operation against directly constructed TwoParticleGF objects and the status model; "
-                "distinct = distinct (history, event-sequence hash); non-trivial = history contains a bulk computation or an on-demand element computation followed by an evaluation",
+                "distinct = distinct (history, interleaving signature); non-trivial = history contains a bulk computation or an on-demand element computation followed by an evaluation",
     },
     "C17": {
         "parts": {
@@ -95,7 +102,7 @@ CHECKS = {
         "is_violation": c17_violation,
         "workload_keys": ["ops", "calls", "hrep", "quads", "freqs", "J", "G", "P", "model", "wf", "nosym", "beta", "mode", "mp"],
         "rule": "one case = one seeded simulated execution (workflow history or parallel workflow or container history or dispatcher rounds) with ASan+UBSan live; "
-                "distinct = distinct (harness, event-sequence hash); non-trivial = the run executed at least one MPI collective or point-to-point transfer through instrumented memcpy, or an index-chasing loop (every workflow run does)",
+                "distinct = distinct (harness, workload + interleaving signature); non-trivial = the run executed at least one MPI collective or point-to-point transfer through instrumented memcpy, or an index-chasing loop (every workflow run does)",
     },
 }
 
@@ -171,11 +178,23 @@ def main():
         seed0 = base * 100000000 + pi * 10000000
         nruns = max(16, int(part["runs"] * scale))
         tb = time.time()
-        res, crashes = vlib.run_batch(exe, seed0, nruns, part["tl"] * max(1.0, scale), extra=["--watchdog", str(watchdog_of(part))])
+        res, crashes = vlib.run_batch(exe, seed0, nruns, part["tl"] * max(1.0, scale), cfg=part.get("cfg", ""), extra=["--watchdog", str(watchdog_of(part))])
         for r in res: r["_part"] = pi
         for c in crashes: c["_part"] = pi; c.setdefault("cfg", ""); c.setdefault("hash", "crash"); c.setdefault("stats", {}); c.setdefault("probes", {}); c.setdefault("ubsan", []); c.setdefault("sig", "")
         wall = time.time() - tb
-        per_part.append(dict(part=part, runs=len(res), crashes=len(crashes), wall_s=round(wall, 2), seed_first=seed0, seed_last=seed0 + nruns - 1))
+        sat = None
+        if part.get("saturation"):
+            seen, seenp, curve, curvep = set(), set(), [], []
+            rs_sorted = sorted(res, key=lambda r: r["seed"])
+            marks = set(int(len(rs_sorted) * f) for f in (0.125, 0.25, 0.5, 0.75, 1.0))
+            for i, r in enumerate(rs_sorted, 1):
+                seen.add(r.get("ohash", r["hash"])); seenp.add(r.get("phash", r["hash"]))
+                if i in marks: curve.append([i, len(seen)]); curvep.append([i, len(seenp)])
+            sat = dict(cfg=part.get("cfg"), runs=len(rs_sorted), distinct_interleavings_vs_runs=curve,
+                       distinct_p2p_protocol_orders_vs_runs=curvep,
+                       new_p2p_orders_in_last_quarter=(curvep[-1][1] - curvep[-2][1]) if len(curvep) >= 2 else None,
+                       distinct_job_to_rank_maps=len(set(r.get("sig", "") for r in rs_sorted)))
+        per_part.append(dict(part=part, runs=len(res), crashes=len(crashes), wall_s=round(wall, 2), seed_first=seed0, seed_last=seed0 + nruns - 1, saturation=sat))
         log("%s/%s %s[%s%s]: %d runs (+%d crashed) in %.1fs" % (pid, tier, part["harness"], part["variant"], "-cx" if part.get("complex") else "", len(res), len(crashes), wall))
         all_results += res; all_crashes += crashes
     # determinism sample: rerun a 2% sample of the seeds in fresh processes, hashes must agree
@@ -185,7 +204,7 @@ def main():
         mine = [r for r in all_results if r["_part"] == pi]
         sample = mine[::50][:64]
         for r in sample:
-            r2 = vlib.run_single(exe, r["seed"])
+            r2 = vlib.run_single(exe, r["seed"], cfg=part.get("cfg") or None)
             det_checked += 1
             if r2["hash"] != r["hash"] or r2["verdict"] != r["verdict"]:
                 nondet.append((r["seed"], r["hash"], r2["hash"], r["verdict"], r2["verdict"]))
@@ -205,39 +224,71 @@ def main():
         if pid == "C17" and r.get("ubsan") and not r["verdict"].startswith("asan"): cls = ubsan_class(r)
         groups.setdefault(cls, []).append(r)
     replays, known_lines, new_violations = [], [], 0
-    for cls, rs in list(groups.items())[:8]:
-        pi = rs[0]["_part"]
-        rs = [r for r in rs if r["_part"] == pi] or rs
-        part = spec["parts"][tier][pi]
+    cls_of = lambda r: ubsan_class(r) if (pid == "C17" and r.get("ubsan") and not r["verdict"].startswith("asan")) else r["verdict"]
+    unstable = []   # (class, part index, seeds) of groups in which no seed reproduced its class in a fresh process
+
+    def report(part, seed, cls, first, rs, classify):
+        """minimise, gate (two fresh-process replays must agree), write the replay file; returns False if the replay is unstable"""
+        nonlocal new_violations
         exe = exe_for(part, built)
-        r0 = sorted(rs, key=lambda r: (P_of(r), len(r.get("cfg", ""))))[0] if all(r.get("cfg") for r in rs) else rs[0]
-        first = vlib.run_single(exe, r0["seed"], want_choices=True)
-        cls_of = lambda r: ubsan_class(r) if (pid == "C17" and r.get("ubsan") and not r["verdict"].startswith("asan")) else r["verdict"]
-        if cls_of(first) != cls:
-            log("seed %s: class changed on re-execution (%s -> %s)" % (r0["seed"], cls, cls_of(first)))
-            print("INCONCLUSIVE property=%s seed %s did not reproduce (%s vs %s)" % (pid, r0["seed"], cls, cls_of(first)))
-            return 2
-        # minimise on the class seen by this property; gate: two fresh-process replays must agree
         first_for_min = dict(first); first_for_min["verdict"] = cls
-        cfg_s, choices, best, nre = vlib.minimise(exe, r0["seed"], first_for_min, spec["workload_keys"], classify=cls_of,
+        cfg_s, choices, best, nre = vlib.minimise(exe, seed, first_for_min, spec["workload_keys"], classify=classify,
                                                   budget_runs=300 if tier == "quick" else 800, budget_s=90 if tier == "quick" else 300, log=log)
-        a = dict(vlib.run_single(exe, r0["seed"], cfg_s, choices=choices, want_trace=True)); a["verdict"] = cls_of(a)
-        b = dict(vlib.run_single(exe, r0["seed"], cfg_s, choices=choices)); b["verdict"] = cls_of(b)
+        a = dict(vlib.run_single(exe, seed, cfg_s, choices=choices, want_trace=True)); a["verdict"] = classify(a)
+        b = dict(vlib.run_single(exe, seed, cfg_s, choices=choices)); b["verdict"] = classify(b)
         if a["verdict"] != cls or b["verdict"] != cls or a["hash"] != b["hash"]:
-            print("INCONCLUSIVE property=%s minimised replay is not stable (%s/%s, %s/%s)" % (pid, a["verdict"], b["verdict"], a["hash"], b["hash"]))
-            return 2
+            log("minimised replay of seed %s is not stable (%s/%s, %s/%s)" % (seed, a["verdict"], b["verdict"], a["hash"], b["hash"]))
+            return False
         k = vlib.match_known(known, cls, a.get("cfg", cfg_s), a.get("detail", ""))
-        rp = dict(property=pid, harness=part["harness"], variant=part["variant"], complex=bool(part.get("complex")), seed=r0["seed"], cfg=a.get("cfg") or cfg_s,
+        rp = dict(property=pid, harness=part["harness"], variant=part["variant"], complex=bool(part.get("complex")), seed=seed, cfg=a.get("cfg") or cfg_s,
                   choices=choices, expect=dict(verdict=cls, hash=a["hash"]), detail=a.get("detail", "") or "; ".join(a.get("ubsan", [])[:2]), ubsan=a.get("ubsan", []),
-                  original=dict(seed=r0["seed"], cfg=r0.get("cfg", ""), n_choices=len(first.get("choices") or [])), occurrences_in_batch=len(rs),
+                  original=dict(seed=seed, cfg=first.get("cfg", ""), n_choices=len(first.get("choices") or [])), occurrences_in_batch=len(rs),
                   trace=a.get("trace", "")[-20000:], stderr=a.get("stderr", "")[-4000:] if cls != "ok" else "")
-        path = os.path.join(os.environ.get("VERIF_OUT") or VERIF, "replays", "%s-%s-%s.json" % (pid, part["harness"], r0["seed"]))
+        path = os.path.join(os.environ.get("VERIF_OUT") or VERIF, "replays", "%s-%s-%s.json" % (pid, part["harness"], seed))
         vlib.write_json(path, rp)
         if k:
             known_lines.append("KNOWN-FINDING: property=%s %s [%s, %d runs, replay=%s]" % (pid, k["text"], cls, len(rs), path))
         else:
             new_violations += 1
             replays.append((cls, path, rp["detail"], len(rs)))
+        return True
+
+    for cls, rs in list(groups.items())[:8]:
+        pi = rs[0]["_part"]
+        rs = [r for r in rs if r["_part"] == pi] or rs
+        part = spec["parts"][tier][pi]
+        exe = exe_for(part, built)
+        cands = sorted(rs, key=lambda r: (P_of(r), len(r.get("cfg", "")))) if all(r.get("cfg") for r in rs) else list(rs)
+        done = False
+        for r0 in cands[:8]:
+            # gate 1: the failing seed must show the same class when executed alone in a fresh process
+            first = vlib.run_single(exe, r0["seed"], cfg=part.get("cfg") or None, want_choices=True)
+            if cls_of(first) != cls:
+                log("seed %s: class changed on re-execution in a fresh process (%s -> %s); trying another seed of this class" % (r0["seed"], cls, cls_of(first)))
+                continue
+            if report(part, r0["seed"], cls, first, rs, cls_of):
+                done = True
+                break
+        if not done:
+            unstable.append((cls, pi, [r["seed"] for r in cands[:8]]))
+    # A class whose seeds do not replay in the uninstrumented build means behaviour that depends on the memory layout of the
+    # process, i.e. undefined behaviour (e.g. a receive that writes through a dead buffer). Re-execute those seeds - same
+    # configuration, same schedule - in the sanitised build, where such an error is reported deterministically.
+    inconclusive = None
+    if unstable and not new_violations and not known_lines:
+        for cls, pi, seeds in unstable:
+            part = dict(spec["parts"][tier][pi]); part["variant"] = "san"
+            exe = exe_for(part, built)
+            san_cls = lambda r: (ubsan_class(r) if r.get("ubsan") and r["verdict"] in ("ok",) else r["verdict"])
+            for seed in seeds[:5]:
+                f1 = vlib.run_single(exe, seed, cfg=part.get("cfg") or None, want_choices=True); f2 = vlib.run_single(exe, seed, cfg=part.get("cfg") or None)
+                c1, c2 = san_cls(f1), san_cls(f2)
+                if c1 != "ok" and c1 == c2:
+                    log("seed %s (unstable class %s in the plain build) gives %s in the sanitised build" % (seed, cls, c1))
+                    if report(part, seed, c1, f1, [f1], san_cls): break
+            if new_violations: break
+        if not new_violations:
+            inconclusive = "violations were seen (%s) but none could be replayed deterministically in a fresh process, neither plain nor sanitised" % ", ".join(u[0] for u in unstable)
     wall = time.time() - t0
 
     # ---- evidence
@@ -251,7 +302,7 @@ def main():
         if pid == "C06": nt = P >= 2 or (T >= 2 and r.get("stats", {}).get("omp_regions", 0) > 0)
         if pid == "C13": nt = r.get("probes", {}).get("nontrivial_history", 0) > 0
         if pid == "C17": nt = (r.get("stats", {}).get("collectives", 0) + r.get("stats", {}).get("matches", 0) > 0) or r.get("harness") == "c17_workflow"
-        if nt: nontrivial.add((r.get("harness"), r["hash"]))
+        if nt: nontrivial.add((r.get("harness"), r.get("ohash", r["hash"]), r.get("sig", "")))
     faults = collections.OrderedDict()
     for name, key in FAULTS.items():
         faults[name] = dict(fired_total=sum(r.get("stats", {}).get(key, 0) for r in ok_runs), runs_where_fired=sum(1 for r in ok_runs if r.get("stats", {}).get(key, 0) > 0))
@@ -275,8 +326,11 @@ def main():
             simulated_time_virtual_s=round(sum(r.get("stats", {}).get("vtime", 0) for r in ok_runs) * 1e-6, 3),
             scheduling_steps=sum(r.get("stats", {}).get("steps", 0) for r in ok_runs),
             faults_injected=faults, probes_hit_runs=dict(probes), verdicts=dict(verdicts),
-            distinct_event_hashes=len(set((r.get("harness"), r["hash"]) for r in ok_runs)), distinct_coverage_signatures=len(sigs),
-            parts=[dict(harness=p["part"]["harness"], variant=p["part"]["variant"] + ("-complex" if p["part"].get("complex") else ""), runs=p["runs"], crashed=p["crashes"], wall_s=p["wall_s"], seeds="%d..%d" % (p["seed_first"], p["seed_last"])) for p in per_part],
+            distinct_full_event_hashes=len(set((r.get("harness"), r["hash"]) for r in ok_runs)),
+            distinct_interleavings=len(set((r.get("harness"), r.get("ohash", r["hash"])) for r in ok_runs)), distinct_coverage_signatures=len(sigs),
+            distinct_rule_note="distinct_nontrivial counts distinct (harness, interleaving signature, coverage signature) triples among non-trivial runs; the coverage signature is the job-to-rank map (C16), the sequence of ranks that received work orders (C06) or the operation history (C13, C17)",
+            small_configuration_saturation=[p["saturation"] for p in per_part if p.get("saturation")],
+            parts=[dict(harness=p["part"]["harness"], cfg_override=p["part"].get("cfg", ""), variant=p["part"]["variant"] + ("-complex" if p["part"].get("complex") else ""), runs=p["runs"], crashed=p["crashes"], wall_s=p["wall_s"], seeds="%d..%d" % (p["seed_first"], p["seed_last"])) for p in per_part],
             determinism_recheck=dict(seeds_reexecuted=det_checked, mismatches=len(nondet)),
             components=COMPONENTS,
             violations=[dict(cls=c, replay=p, detail=d[:300], runs=n) for c, p, d, n in replays], known_findings_hit=known_lines,
@@ -293,6 +347,9 @@ def main():
     vlib.write_json(os.path.join(outdir, "evidence", "%s.json" % pid), ev)
     for l in known_lines: print(l)
     print("property=%s tier=%s runs=%d distinct_nontrivial=%d wall=%.1fs verdicts=%s" % (pid, tier, nruns, len(nontrivial), wall, dict(verdicts)))
+    if inconclusive and not new_violations:
+        print("INCONCLUSIVE property=%s %s" % (pid, inconclusive))
+        return 2
     if unsupported and not new_violations:
         print("INCONCLUSIVE property=%s: %d runs hit an unsupported simulator feature: %s" % (pid, len(unsupported), unsupported[0].get("detail")))
         return 2
